@@ -544,7 +544,43 @@ def run(ctx):
         good = [p for p in paths if p.returns]
         ok = bool(bad) and all(p.outcome[0] == "raise" and p.outcome[1].get("cls") == "RangeError" for p in bad) and all(N.mk_cmp("==", ln, cnt) in p.guards() for p in good)
         ctx.ob("C01.R6", fi, ok, "%s._build rejects an object whose length differs from the count" % cls, key="%s count guard" % cls)
-    ctx.floor("C01.R6", 20)
+    # repeaters: the element result is appended exactly when `discard` is off, and RepeatUntil's predicate sees the list with the current element
+    disc = N.selfattr("discard")
+    for cls in ("Array", "GreedyRange", "RepeatUntil"):
+        for meth, subm in (("_parse", "_parsereport"), ("_build", "_build")):
+            fi, paths = method_paths(ctx, cls, meth)
+            ok, seen = True, 0
+            for p in paths:
+                for i, e in enumerate(p.events):
+                    if e.kind == "SUB" and e["m"] == subm and e.loops and not e.raised and e["target"] == N.selfattr("subcon"):
+                        seg = []
+                        for x in p.events[i + 1:]:
+                            if x.kind in ("ITER", "LOOPEND") and x["lid"] == e.loops[-1]:
+                                break
+                            seg.append(x)
+                        apps = [x for x in seg if x.kind == "MUT" and x["method"] == "append" and x["args"] == (e["res"],)]
+                        g = p.guards()
+                        if N.mk_not(disc) in g:
+                            seen += 1
+                            ok = ok and len(apps) >= 1
+                        elif disc in g:
+                            seen += 1
+                            ok = ok and not apps
+            ctx.ob("C01.R6", fi, ok and seen >= 2, "%s.%s appends the element's result exactly when discard is off" % (cls, meth), key="%s %s discard polarity" % (cls, meth))
+    for meth in ("_parse", "_build"):
+        fi, paths = method_paths(ctx, "RepeatUntil", meth)
+        ok, seen = True, 0
+        for p in paths:
+            if N.mk_not(disc) not in p.guards():
+                continue
+            for i, e in enumerate(p.events):
+                if e.kind == "CALL" and len(e["args"]) == 3 and e.loops and not e.depth and (e["func"] == N.selfattr("predicate") or e["func"][0] in ("lam", "free", "param")):
+                    lst = e["args"][1]
+                    prior = [x for x in p.events[:i] if x.kind == "MUT" and x["method"] == "append" and x["base"] == lst and x.loops == e.loops]
+                    seen += 1
+                    ok = ok and bool(prior)
+        ctx.ob("C01.R6", fi, ok and seen >= 1, "RepeatUntil.%s hands the predicate the list that already holds the current element" % meth, key="RepeatUntil %s predicate list" % meth)
+    ctx.floor("C01.R6", 28)
 
     # ---------------------------------------------------------------- R7 the delimiters and encodings both directions must agree on (shared rules)
     # VarInt: what _build emits is canonical LEB128 that _parse's loop terminates on (C03.R7); terminated strings: the terminator unit table
